@@ -2,6 +2,7 @@ package simulation
 
 import (
 	"fmt"
+	"sort"
 
 	"github.com/simimpact/srsim/pkg/engine/event"
 	"github.com/simimpact/srsim/pkg/engine/hook"
@@ -29,9 +30,16 @@ func (sim *Simulation) Run() (*model.IterationResult, error) {
 
 // initialize the sim and create characters from the config to prep for execution
 func initialize(sim *Simulation) (stateFn, error) {
-	// enable all registered startup hooks
-	for k, hook := range hook.StartupHooks() {
-		if err := hook(sim); err != nil {
+	// enable all registered startup hooks, in the order of their keys: the hooks subscribe
+	// listeners, and listeners of one event run in subscription order
+	hooks := hook.StartupHooks()
+	hookKeys := make([]string, 0, len(hooks))
+	for k := range hooks {
+		hookKeys = append(hookKeys, k)
+	}
+	sort.Strings(hookKeys)
+	for _, k := range hookKeys {
+		if err := hooks[k](sim); err != nil {
 			return nil, fmt.Errorf("error executing hook %v", k)
 		}
 	}
